@@ -150,9 +150,12 @@ class Workflow(metaclass=WorkflowMeta):
         # Detect StartEvent issues before StopEvent for clearer guidance
         self._start_event_class = _ensure_start_event_class(step_configs, cls_name)
         self._stop_event_class = _ensure_stop_event_class(step_configs, cls_name)
-        # Populated by _validate(); empty until a successful validation runs.
+        # Populated by _validate(), or on demand by _catch_error_tables() when
+        # validation is disabled; _handlers_version tracks which
+        # _step_functions_version they were built for.
         self._catch_error_handlers: dict[str, CatchErrorHandler] = {}
         self._handler_for_step: dict[str, str] = {}
+        self._handlers_version: int = -1
         self._events = _collect_events(step_configs)
         # Resource management
         self._resource_manager = resource_manager or ResourceManager()
@@ -433,6 +436,24 @@ class Workflow(metaclass=WorkflowMeta):
             force=True,  # Explicit validate() call should always run
         )
 
+    def _catch_error_tables(
+        self,
+    ) -> tuple[dict[str, CatchErrorHandler], dict[str, str]]:
+        """Routing tables for ``@catch_error`` handlers.
+
+        They are run configuration, not a graph check: when validation is
+        disabled (or has not run for the current step set) they are built here,
+        so exhausted failures still reach their handlers.
+        """
+        if self._handlers_version != self.__class__._step_functions_version:
+            from .representation.validate import _collect_catch_error_handlers
+
+            self._catch_error_handlers, self._handler_for_step = (
+                _collect_catch_error_handlers(self._step_configs())
+            )
+            self._handlers_version = self.__class__._step_functions_version
+        return self._catch_error_handlers, self._handler_for_step
+
     def _validate(
         self,
         *,
@@ -461,6 +482,7 @@ class Workflow(metaclass=WorkflowMeta):
         self._stop_event_class = result.stop_event_class
         self._catch_error_handlers = result.catch_error_handlers
         self._handler_for_step = result.handler_for_step
+        self._handlers_version = self.__class__._step_functions_version
 
         if validate_resource_configs:
             if errors := _validate_resource_configs(step_configs):
